@@ -11,6 +11,7 @@ than 128 distinct pairs, i.e. across `lru_cache` evictions).
 import SnowModel.Core.Uid
 import SnowModel.Proofs.C13c
 import SnowModel.Proofs.C13e
+import SnowModel.Proofs.C13f
 
 namespace SnowModel.Props.C13
 open SnowModel.Uid
@@ -54,6 +55,36 @@ theorem parse_nonempty (t : String) (ps : List Part) (h : parseTemplate t = .ok 
     split at h
     · cases h
     · split at h <;> cases h
+
+/-! #### spelling variants of a template are the same template
+
+`__init__` hands `part.strip().lower()` to `_convert`; `Proofs.C13.normPiece` is that
+normalisation. The distinctness theorems below speak about the *parsed* parts (`c.parts`), so
+they cover `context,index`, `context, index` and `Context,Index` alike: generators written with
+different spellings share one id layout and are kept apart only by the process-wide counter. -/
+
+/-- `parseTemplate` depends on the template text only through the normalised pieces. -/
+theorem parseTemplate_spelling_invariant (t t' : String)
+    (h : (splitComma t.toList).map Proofs.C13.normPiece = (splitComma t'.toList).map Proofs.C13.normPiece) :
+    parseTemplate t = parseTemplate t' := by
+  rw [Proofs.C13.parseTemplate_eq, Proofs.C13.parseTemplate_eq, h]
+
+/-- blanks (space, tab, newline, carriage return) before and after a piece do not matter -/
+theorem piece_blanks_irrelevant (ws p ws' : List Char)
+    (h : ∀ c ∈ ws, isSpace c = true) (h' : ∀ c ∈ ws', isSpace c = true) :
+    Proofs.C13.normPiece (ws ++ p ++ ws') = Proofs.C13.normPiece p :=
+  Proofs.C13.normPiece_pad ws p ws' h h'
+
+/-- letter case does not matter: pieces that are equal after lower-casing normalise equally -/
+theorem piece_case_irrelevant (p q : List Char) (h : p.map Char.toLower = q.map Char.toLower) :
+    Proofs.C13.normPiece p = Proofs.C13.normPiece q :=
+  Proofs.C13.normPiece_case p q h
+
+example :
+    parseTemplate "context, index" = parseTemplate "context,index" ∧
+    parseTemplate "Context,Index" = parseTemplate "context,index" ∧
+    parseTemplate " PID ,\tContext ,   INDEX " = parseTemplate (defaultNumericTemplate true) ∧
+    parseTemplate "context,index" = .ok [.context, .index] := by decide
 
 /-! ### 2. the reversible scramble -/
 
